@@ -17,7 +17,15 @@
            held    : the user holds a MemoRef for the node (it was called at top level) ]
 
    C01  every memoized call (outermost or nested) returns EvalN(node, current sources).
-   C02  a body may start only if  ~ran \/ stale \/ gone.
+   C02  a body may start only if it never ran, a collection did not have to keep its result, or one
+        of the DIRECT inputs of its last run changed: a source it read was written with a different
+        value or removed since (sticky flag `stale`, or its current value differs from the value
+        seen), the tracked field it read was mutably accessed, or a memoized function it called
+        returns — or has meanwhile returned — a value different from the one it saw (`stale`, or the
+        callee's from-scratch value on the current sources differs from the value seen).  This is the
+        statement's rule: re-execution needs a transitively read source that changed, and is
+        forbidden when every intermediate it depends on still returns the value it saw (backdating).
+        It does not depend on the order in which an implementation re-verifies dependencies.
    C03  same rule for results a collection had to keep (surv), and lookups of kept results
         return the value of their last run. *)
 EXTENDS PicoProgram, TLC
@@ -33,6 +41,7 @@ InitMon == [ src   |-> [k \in SrcKeys |-> Absent],
              gone  |-> [n \in NodeSet |-> FALSE],
              surv  |-> [n \in NodeSet |-> FALSE],
              lastIn  |-> [n \in NodeSet |-> {}],
+             lastSeen |-> [n \in NodeSet |-> {}],    \* <<kind, id, value seen>> of the last run
              lastVal |-> [n \in NodeSet |-> 0],
              keep  |-> [n \in NodeSet |-> 0],
              held  |-> [n \in NodeSet |-> FALSE],
@@ -54,7 +63,10 @@ TouchA(m, newmp) ==
             !.stale = [n \in NodeSet |-> @[n] \/ (<<"src", CNT>> \in m.lastIn[n])]]
 
 \* ---- events of one user operation ----------------------------------------------------------
-MayRun(m, n) == ~m.ran[n] \/ m.stale[n] \/ m.gone[n]
+InputDiffers(m, t) ==
+  \/ t[1] = "fn" /\ EvalN(t[2], m.src, m.mp) # t[3]
+  \/ t[1] = "src" /\ t[2] # CNT /\ m.src[t[2]] # t[3]
+MayRun(m, n) == ~m.ran[n] \/ m.stale[n] \/ m.gone[n] \/ \E t \in m.lastSeen[n] : InputDiffers(m, t)
 
 PutFront(s, n, cap) ==
   LET t == <<n>> \o SelectSeq(s, LAMBDA x : x # n)
@@ -69,10 +81,11 @@ StepEv(m, ev) ==
                   ELSE IF m.surv[ev.n] THEN {"C03"} ELSE {"C02"}]
     [] ev.e = "exit" ->
          LET n == ev.n
-             ins == SeqToSet(ev.ins)
+             seen == SeqToSet(ev.ins)                       \* triples <<kind, id, value>>
+             ins == {<<t[1], t[2]>> : t \in seen}
              changed == ~m.ran[n] \/ m.lastVal[n] # ev.v
          IN [m |-> [m EXCEPT !.ran[n] = TRUE, !.gone[n] = FALSE, !.surv[n] = FALSE,
-                             !.lastIn[n] = ins, !.lastVal[n] = ev.v,
+                             !.lastIn[n] = ins, !.lastSeen[n] = seen, !.lastVal[n] = ev.v,
                              !.stale = [q \in NodeSet |->
                                           IF q = n THEN FALSE
                                           ELSE @[q] \/ (changed /\ <<"fn", n>> \in m.lastIn[q])]],
@@ -90,7 +103,8 @@ FoldEvs(m, evs, i, bad) ==
 \* a user operation that calls memoized functions; res = [t |-> "val", v |-> ..] or [t |-> "panic"]
 CallA(m, evs, res) ==
   LET r == FoldEvs(m, evs, 1, {})
-  IN [m |-> r.m, bad |-> r.bad \cup (IF res.t = "panic" THEN {"C01"} ELSE {})]
+  IN [m |-> r.m, bad |-> r.bad \cup (IF res.t = "panic" THEN {"C01"} ELSE {})
+                                \cup (IF res.t = "ub" THEN {"C03"} ELSE {})]     \* the memory checker reported an invalid access
 
 RetainA(m, n)  == [m EXCEPT !.keep[n] = @ + 1]
 ClearA(m, n)   == [m EXCEPT !.keep[n] = IF @ > 0 THEN @ - 1 ELSE 0]
